@@ -534,7 +534,7 @@ class WfCtx(object):
         for s in _body(fn):
             src = _src(s)
             if isinstance(s, ast.If) and _src(s.test) == 'states.is_paused_or_completed(self.wf_ex.state)':
-                # (before expire_all: on the copy loaded at the start; after it - repo patch 25 - on the
+                # (before expire_all: on the copy loaded at the start; after it - repo fix 3b5c318a - on the
                 #  re-read copy: the `read` emitted for expire_all precedes it)
                 if len(s.body) != 1 or not isinstance(s.body[0], ast.Return) or s.orelse:
                     raise Refuse('check_and_complete: unexpected guard')
@@ -834,7 +834,7 @@ def action_complete(repo):
     if kinds != {'state': False, 'output': True, 'accepted': False}:
         raise Refuse('ActionExecution column kinds: %r' % kinds)
     if with_cas:
-        # repo patch 26: the state is set by a compare-and-swap on the state read; no match -> raise
+        # repo fix fdb9cc00: the state is set by a compare-and-swap on the state read; no match -> raise
         return [('read',),
                 ('raiseIf', ('isIn', ('obj', WF_FIELDS['state']), tabs['completed'])),
                 ('setVar', A_PREV, ('obj', WF_FIELDS['state'])),
